@@ -156,7 +156,10 @@ impl<'c, 'd> ProgGen<'c, 'd> {
         if self.cfg.obfuscate_16 > 0 && self.ch.chance(self.cfg.obfuscate_16, 16) {
             self.features.insert("type-level computation in an annotation");
             let fresh = self.fresh_name();
-            return Some(match self.ch.pick(7) {
+            return Some(match self.ch.pick(8) {
+                // A group with an unused definition whose *body* is the type (so the body of a
+                // group inside a type mentions whatever the type mentions).
+                7 => sast::let_(vec![(&fresh, Some(S::Type), S::Int)], plain),
                 4..=6 => {
                     // A type-level conditional on a comparison of literals: every operator, equal
                     // and unequal operands, the wanted type in whichever branch is taken.
@@ -721,7 +724,10 @@ impl<'c, 'd> ProgGen<'c, 'd> {
     }
 
     fn polymorphic_def(&mut self, fuel: usize) -> Option<(String, S, S)> {
-        let (a, b, x, y, f) = ("tyA", "tyB", "vx", "vy", "fn_");
+        // Binder names are fresh, so that polymorphic definitions nest (a polymorphic function
+        // called at a type variable of an enclosing one: substitution of *open* arguments).
+        let (a, b, x, u) = (self.fresh_name(), self.fresh_name(), self.fresh_name(), self.fresh_name());
+        let (a, b, x, u) = (a.as_str(), b.as_str(), x.as_str(), u.as_str());
         let menu: Vec<S> = vec![
             sast::pi(a, S::Type, sast::arrow(sast::var(a), sast::var(a))),
             sast::pi(a, S::Type, sast::pi(b, S::Type, sast::arrow(sast::var(a), sast::arrow(sast::var(b), sast::var(a))))),
@@ -729,13 +735,13 @@ impl<'c, 'd> ProgGen<'c, 'd> {
             sast::arrow(S::Bool, S::Type),
             sast::pi(a, S::Type, sast::pi(x, sast::var(a), sast::var(a))),
             sast::pi(b, S::Bool, sast::ite(sast::var(b), S::Type, S::Type)),
+            // Binding constructs inside the codomain that mention the parameter: a group whose
+            // body is the parameter, a group whose definition is, a nested function type.
+            sast::pi(a, S::Type, sast::pi(x, sast::var(a), sast::let_(vec![(u, Some(S::Type), S::Int)], sast::var(a)))),
+            sast::pi(a, S::Type, sast::arrow(sast::var(a), sast::let_(vec![(u, Some(S::Type), sast::var(a))], sast::var(u)))),
+            sast::pi(a, S::Type, sast::pi(b, S::Type, sast::arrow(sast::var(b), sast::arrow(sast::var(a), sast::let_(vec![(u, Some(S::Type), sast::var(b))], sast::var(a)))))),
         ];
-        let _ = (y, f);
         let tys = menu[self.ch.pick(menu.len())].clone();
-        // Avoid clashes of the menu's binder names with names in scope.
-        if self.scope.iter().any(|e| [a, b, x].contains(&e.name.as_str())) {
-            return self.def_of_type(Rc::new(V::Int), fuel);
-        }
         let ty = self.eval_s(&tys)?;
         let def = self.make(&ty, fuel.max(3))?;
         let name = self.fresh_name();
